@@ -25,7 +25,7 @@ extern std::atomic<long> g_time_value;
 
 std::string Action::str() const {
     static const char* n[] = {"run", "publish", "subscribe", "unsubscribe", "cancel", "disconnect", "destroy", "signal",
-                              "broker_publish", "net_kill", "spurious_ack", "hostile_bytes", "set_silent", "custom", "reauth", "replace", "broker_disconnect",
+                              "broker_publish", "net_kill", "spurious_ack", "hostile_bytes", "set_silent", "custom", "reauth", "replace", "broker_disconnect", "reconfigure",
                               "s_open", "s_read", "s_write", "s_shutdown", "s_cancel", "s_close", "s_trigger"};
     std::ostringstream o;
     if (chained) o << "+chained ";
@@ -311,6 +311,11 @@ struct App : AppSink {
                     b.flush(c);
                     w.broker_close(c, false);
                 }
+                break;
+            case Action::reconfigure:
+                if (!cl->alive() || !sc.has_ccfg2 || running) break;
+                w.log(Ev::note, -1, -1, 0, "script: reconfigure");
+                cl->configure(sc.ccfg2);
                 break;
             case Action::reauth:
                 if (!cl->alive()) break;
